@@ -396,3 +396,246 @@ func lemmaDisasmTotal(ri RawInstruction) (ok bool) {
 	}
 	return ins != nil
 }
+
+// ---------------------------------------------------------------------------
+// The virtual machine (property C49): every step helper against the classic-BPF reference
+// semantics of the property statement, and safety of Run on programs accepted by NewVM.
+
+// refALU: 32-bit unsigned arithmetic; shifts by 32 or more yield 0; division and modulo are
+// only evaluated for a non-zero divisor.
+//
+//@ pure
+func refALU(op ALUOp, a, v uint32) uint32 {
+	switch op {
+	case ALUOpAdd:
+		return uint32(uint64(a) + uint64(v))
+	case ALUOpSub:
+		return uint32(uint64(a) - uint64(v))
+	case ALUOpMul:
+		return uint32(uint64(a) * uint64(v))
+	case ALUOpDiv:
+		return uint32(uint64(a) / uint64(v))
+	case ALUOpMod:
+		return uint32(uint64(a) % uint64(v))
+	case ALUOpOr:
+		return a | v
+	case ALUOpAnd:
+		return a & v
+	case ALUOpXor:
+		return a ^ v
+	case ALUOpShiftLeft:
+		if v >= 32 {
+			return 0
+		}
+		return uint32(uint64(a) << v)
+	case ALUOpShiftRight:
+		if v >= 32 {
+			return 0
+		}
+		return uint32(uint64(a) >> v)
+	}
+	return a
+}
+
+// refTest: the eight conditional-jump tests.
+//
+//@ pure
+func refTest(cond JumpTest, a, v uint32) bool {
+	switch cond {
+	case JumpEqual:
+		return a == v
+	case JumpNotEqual:
+		return !(a == v)
+	case JumpGreaterThan:
+		return a > v
+	case JumpLessThan:
+		return v > a
+	case JumpGreaterOrEqual:
+		return !(v > a)
+	case JumpLessOrEqual:
+		return !(a > v)
+	case JumpBitsSet:
+		return a&v != 0
+	case JumpBitsNotSet:
+		return a&v == 0
+	}
+	return false
+}
+
+// refLoad: big-endian load of size 1, 2 or 4 at off; callers guarantee off+size <= len(in).
+//
+//@ pure
+func refLoad(in []byte, off int, size int) uint32 {
+	switch size {
+	case 1:
+		return uint32(in[off])
+	case 2:
+		return uint32(in[off])<<8 | uint32(in[off+1])
+	}
+	return uint32(in[off])<<24 | uint32(in[off+1])<<16 | uint32(in[off+2])<<8 | uint32(in[off+3])
+}
+
+//@ func aluOpCommon(op, regA, value) (r)
+//@   requires (op == ALUOpDiv || op == ALUOpMod) ==> value != 0
+//@   ensures  r == refALU(op, regA, value)
+//@
+//@ func aluOpConstant(ins, regA) (r)
+//@   requires (ins.Op == ALUOpDiv || ins.Op == ALUOpMod) ==> ins.Val != 0
+//@   ensures  r == refALU(ins.Op, regA, ins.Val)
+//@
+//@ func aluOpX(ins, regA, regX) (r, ok)
+//@   ensures  ok <==> !(regX == 0 && (ins.Op == ALUOpDiv || ins.Op == ALUOpMod))
+//@   ensures  ok ==> r == refALU(ins.Op, regA, regX)
+//@   ensures  !ok ==> r == 0
+//@
+//@ func jumpIfCommon(cond, skipTrue, skipFalse, regA, value) (skip)
+//@   ensures  skip == ite(refTest(cond, regA, value), int(skipTrue), int(skipFalse))
+//@
+//@ func jumpIf(ins, regA) (skip)
+//@   ensures  skip == ite(refTest(ins.Cond, regA, ins.Val), int(ins.SkipTrue), int(ins.SkipFalse))
+//@
+//@ func jumpIfX(ins, regA, regX) (skip)
+//@   ensures  skip == ite(refTest(ins.Cond, regA, regX), int(ins.SkipTrue), int(ins.SkipFalse))
+//@
+//@ func inBounds(inLen, offset, size) (ok)
+//@   inline
+//@
+//@ func loadCommon(in, offset, size) (r, ok)
+//@   requires 0 <= offset && offset <= 1<<33 && (size == 1 || size == 2 || size == 4)
+//@   ensures  ok <==> offset + size <= len(in)
+//@   ensures  ok ==> r == refLoad(in, offset, size)
+//@   ensures  !ok ==> r == 0
+//@
+//@ func loadAbsolute(ins, in) (r, ok)
+//@   requires ins.Size == 1 || ins.Size == 2 || ins.Size == 4
+//@   ensures  ok <==> int(ins.Off) + ins.Size <= len(in)
+//@   ensures  ok ==> r == refLoad(in, int(ins.Off), ins.Size)
+//@   ensures  !ok ==> r == 0
+//@
+//@ func loadIndirect(ins, in, regX) (r, ok)
+//@   requires ins.Size == 1 || ins.Size == 2 || ins.Size == 4
+//@   ensures  ok <==> int(ins.Off) + int(regX) + ins.Size <= len(in)
+//@   ensures  ok ==> r == refLoad(in, int(ins.Off) + int(regX), ins.Size)
+//@   ensures  !ok ==> r == 0
+//@
+//@ func loadMemShift(ins, in) (r, ok)
+//@   ensures  ok <==> int(ins.Off) + 1 <= len(in)
+//@   ensures  ok ==> r == uint32(in[int(ins.Off)] & 0x0f) * 4
+//@   ensures  !ok ==> r == 0
+//@
+//@ func loadConstant(ins, regA, regX) (a, x)
+//@   ensures  a == ite(ins.Dst == RegA, ins.Val, regA) && x == ite(ins.Dst == RegX, ins.Val, regX)
+//@
+//@ func loadExtension(ins, in) (r)
+//@   requires ins.Num == ExtLen
+//@   ensures  r == uint32(len(in))
+//@
+//@ func loadScratch(ins, regScratch, regA, regX) (a, x)
+//@   requires 0 <= ins.N && ins.N < 16
+//@   ensures  a == ite(ins.Dst == RegA, regScratch[ins.N], regA) && x == ite(ins.Dst == RegX, regScratch[ins.N], regX)
+//@
+//@ func storeScratch(ins, regScratch, regA, regX) (out)
+//@   requires 0 <= ins.N && ins.N < 16
+//@   ensures  forall k int :: 0 <= k && k < 16 && k != ins.N ==> out[k] == regScratch[k]
+//@   ensures  out[ins.N] == ite(ins.Src == RegA, regA, ite(ins.Src == RegX, regX, regScratch[ins.N]))
+
+// instrOK: what NewVM guarantees about instruction k of an accepted program and what Run relies on.
+//
+//@ pure
+func instrOK(f []Instruction, k int) bool {
+	rest := len(f) - (k + 1)
+	switch ins := f[k].(type) {
+	case Jump:
+		return int(ins.Skip) < rest
+	case JumpIf:
+		return int(ins.SkipTrue) < rest && int(ins.SkipFalse) < rest
+	case JumpIfX:
+		return int(ins.SkipTrue) < rest && int(ins.SkipFalse) < rest
+	case ALUOpConstant:
+		return !(ins.Val == 0 && (ins.Op == ALUOpDiv || ins.Op == ALUOpMod))
+	case LoadExtension:
+		return ins.Num == ExtLen
+	case LoadAbsolute:
+		return ins.Size == 1 || ins.Size == 2 || ins.Size == 4
+	case LoadIndirect:
+		return ins.Size == 1 || ins.Size == 2 || ins.Size == 4
+	case LoadScratch:
+		return 0 <= ins.N && ins.N < 16
+	case StoreScratch:
+		return 0 <= ins.N && ins.N < 16
+	}
+	return true
+}
+
+// Run never panics on a program whose instructions satisfy instrOK: every helper is called within
+// its precondition and every jump stays inside the program.
+//
+//@ func (*VM).Run(v, in) (r, err)
+//@   requires v != nil && len(v.filter) <= 1<<40
+//@   requires forall k int :: 0 <= k && k < len(v.filter) ==> instrOK(v.filter, k)
+//@   loop 1 invariant 0 <= i && i <= len(v.filter)
+
+// asmOK: what a successful Assemble guarantees about instruction k (operand validity).
+//
+//@ pure
+func asmOK(f []Instruction, k int) bool {
+	switch ins := f[k].(type) {
+	case LoadAbsolute:
+		return ins.Size == 1 || ins.Size == 2 || ins.Size == 4
+	case LoadIndirect:
+		return ins.Size == 1 || ins.Size == 2 || ins.Size == 4
+	case LoadScratch:
+		return 0 <= ins.N && ins.N < 16
+	case StoreScratch:
+		return 0 <= ins.N && ins.N < 16
+	}
+	return true
+}
+
+// checkedOK: what NewVM's own loop guarantees about instruction k (jump targets, constant
+// division, extensions).
+//
+//@ pure
+func checkedOK(f []Instruction, k int) bool {
+	rest := len(f) - (k + 1)
+	switch ins := f[k].(type) {
+	case Jump:
+		return int(ins.Skip) < rest
+	case JumpIf:
+		return int(ins.SkipTrue) < rest && int(ins.SkipFalse) < rest
+	case JumpIfX:
+		return int(ins.SkipTrue) < rest && int(ins.SkipFalse) < rest
+	case ALUOpConstant:
+		return !(ins.Val == 0 && (ins.Op == ALUOpDiv || ins.Op == ALUOpMod))
+	case LoadExtension:
+		return ins.Num == ExtLen
+	}
+	return true
+}
+
+//@ func Assemble(insts) (raw, err)
+//@   allocates
+//@   requires len(insts) <= 1<<40
+//@   requires forall k int :: 0 <= k && k < len(insts) ==> insts[k] != nil
+//@   ensures  err == nil ==> (forall k int :: 0 <= k && k < len(insts) ==> asmOK(insts, k))
+//@   loop 1 invariant -1 <= rangeindex && rangeindex < len(insts) && len(ret) == len(insts)
+//@   loop 1 invariant forall j int :: 0 <= j && j <= rangeindex ==> asmOK(insts, j)
+//@   loop 1 modifies elems(ret)
+//@
+//@ func NewVM(filter) (vm, err)
+//@   allocates
+//@   requires len(filter) <= 1<<40
+//@   requires forall k int :: 0 <= k && k < len(filter) ==> filter[k] != nil
+//@   ensures  err == nil ==> vm != nil && samebase(vm.filter, filter) && suboff(vm.filter, filter) == 0 && len(vm.filter) == len(filter)
+//@   ensures  err == nil ==> (forall k int :: 0 <= k && k < len(filter) ==> checkedOK(filter, k) && asmOK(filter, k))
+//@   loop 1 invariant -1 <= rangeindex && rangeindex < len(filter)
+//@   loop 1 invariant forall j int :: 0 <= j && j <= rangeindex ==> checkedOK(filter, j)
+
+// lemmaInstrOK: the two guarantees together are exactly what Run relies on.
+//
+//@ lemma
+//@ requires 0 <= k && k < len(f)
+//@ ensures ok
+func lemmaInstrOK(f []Instruction, k int) (ok bool) {
+	return instrOK(f, k) == (checkedOK(f, k) && asmOK(f, k))
+}
